@@ -46,6 +46,7 @@ THold        == Ev("Hold") /\ Adv1 /\ EnvQuiet /\ SetHold(TRUE)
 TRelease     == Ev("Release") /\ Adv1 /\ EnvQuiet /\ SetHold(FALSE)
 TStall       == Ev("Stall") /\ Adv1 /\ EnvQuiet /\ SetStalled(TRUE)
 TResume      == Ev("Resume") /\ Adv1 /\ EnvQuiet /\ SetStalled(FALSE)
+TFault       == Ev("Fault") /\ Adv1 /\ EnvQuiet /\ AssocFault(R.f)
 TAdv         == Ev("Adv") /\ Adv1 /\ Adv(R.d)
 TClose       == Ev("Close") /\ Adv1 /\ EnvQuiet /\ inq = << >> /\ ClientCloses
 TRet         == Ev("Ret") /\ Adv1 /\ R.closed /\ Return
@@ -70,7 +71,7 @@ TS5Write == Ev("S5Write") /\ Adv1 /\ K(lcur.f) = RK /\ R.ok /\ S5Lookup
 \* the send itself is not a line of its own: it succeeded iff the byte counter line follows
 TSendOk  == Ev("Metric") /\ Rec[l].dir = "out" /\ SendOk /\ UNCHANGED l
 \* the send failed (line written by the code that drops the datagram)
-TSendErr == Ev("S5Send") /\ Adv1 /\ K(lcur.f) = RK /\ ~R.ok /\ SendErr
+TSendErr == Ev("S5Send") /\ Adv1 /\ K(lcur.f) = RK /\ ~R.ok /\ (SendErr \/ SendTooBig)
 TMetric ==
     /\ Ev("Metric") /\ Adv1
     /\ \/ R.dir = "out" /\ MetricOut /\ R.n = lcur.len
@@ -123,7 +124,7 @@ TNext == TStart \/ TBegin \/ TObs \/ TClientDgram \/ TPeerReply \/ TPeerGot \/ T
          \/ TStall \/ TResume \/ TAdv \/ TClose \/ TRet
          \/ TLookup \/ TInsert \/ TAddPeer \/ TAssocOpen \/ TNewConn \/ TOutgoing \/ TS5Write \/ TSendOk \/ TSendErr \/ TMetric
          \/ TClientGot \/ TIncoming \/ TFlowRemove \/ TPeerClosed \/ TAssocRelease \/ TAssocError
-         \/ TTick \/ TTickEnd \/ TIcmp \/ THold \/ TRelease \/ TAssocOpenStart
+         \/ TTick \/ TTickEnd \/ TIcmp \/ THold \/ TRelease \/ TAssocOpenStart \/ TFault
 
 TInit == l = 1 /\ Init
 TSpec == TInit /\ [][TNext]_tvars
